@@ -149,6 +149,18 @@ CLAIMED = {
         "Trusted: TLC, the transcription, frozen tables and face centres; the nearest-face observation is a numeric "
         "projection with an ambiguity band of 1e-9.",
         "DESIGN.md 3.6, 5/C19"),
+    "C18": (
+        "TLC: interleaving model of threads/calls with a negative control + TLC trace validation of concurrent executions against the sequential reference; TSan reports are unconsumable events",
+        "H3Threads.tla: threads take Begin/End steps around calls; in the specified design no step writes library "
+        "globals and every return equals the sequential result -- TLC explores all interleavings of 3 threads x 2 calls "
+        "and must reject the variant with a library-owned scratch cell. Executions: a 48-call mixed workload is run "
+        "sequentially (reference digests) and then on 2,3,4,8,16 barrier-started threads (5x10 rounds quick, 40x50 "
+        "thorough) against libh3.so; TLC validates each logged return (digest = sequential digest, per-thread sequence "
+        "numbers, hash of the library's writable segments unchanged). The same workload runs under ThreadSanitizer; a "
+        "race report or a crash is an event the specification cannot consume.",
+        "The no-shared-write clause is observed by TSan (sound for the schedules executed) and by sampling a hash of "
+        "libh3.so's writable PT_LOAD segments; TLA+ decides equality with the sequential run and the frame condition.",
+        "DESIGN.md 3.11, 5/C18"),
     "C12": (
         "TLC trace validation of calls to all exported functions against the error-code contract (H3Api.tla); aborts and sanitizer reports are unconsumable events",
         "H3Api.tla states, per entry point, the documented argument domains and the code an out-of-domain scalar must "
